@@ -28,43 +28,20 @@ theorem parentT_eq {G : Graph} {t x : Nat} (h : parentT G t = some x) : x = G.pl
   · simp at h; exact h.symm
   · simp at h
 
-theorem isSameTarget_sameRule {G : Graph} (hw : LabelsWF G) {a b : Nat} (h : isSameTarget G a b = true) :
-    sameRule G a b = true := by
+theorem isSameTarget_sameRule {G : Graph} {a b : Nat} (h : isSameTarget G a b = true) : sameRule G a b = true := by
   unfold isSameTarget at h
   unfold sameRule
-  split at h
-  · rename_i hab; simp only [beq_iff_eq] at hab; subst hab; simp
-  · have ha : ∀ x, (if G.hid a = true then parentT G a else some a) = some x → x = G.pl a := by
-      intro x hx
-      split at hx
-      · exact parentT_eq hx
-      · rename_i hh
-        simp only [Option.some.injEq] at hx
-        subst hx
-        exact (hw _ (by simpa using hh)).symm
-    have hb : ∀ y, (if G.hid b = true then parentT G b else some b) = some y → y = G.pl b := by
-      intro y hy
-      split at hy
-      · exact parentT_eq hy
-      · rename_i hh
-        simp only [Option.some.injEq] at hy
-        subst hy
-        exact (hw _ (by simpa using hh)).symm
-    simp only at h
-    split at h
-    · rename_i x y hx hy
-      simp only [beq_iff_eq] at h
-      subst h
-      rw [← ha x hx, ← hb x hy]
-      simp
-    · simp at h
+  simp only [Bool.or_eq_true, beq_iff_eq] at h ⊢
+  rcases h with rfl | h
+  · rfl
+  · exact h
 
 theorem costS_symm (G : Graph) (hidden : Bool) (a b : Nat) : costS G hidden a b = costS G hidden b a := by
   unfold costS sameRule
   rw [BEq.comm (a := G.pl a)]
 
 /-- the depth `findRevdeps` assigns is at least the specification's cost of the edge -/
-theorem nextDepth_ge {G : Graph} (hw : LabelsWF G) (hidden : Bool) (next d t : Nat) :
+theorem nextDepth_ge {G : Graph} (hidden : Bool) (next d t : Nat) :
     d + costS G hidden t next ≤ nextDepth G hidden next d t ∧ nextDepth G hidden next d t ≤ d + 1 := by
   unfold nextDepth
   split
@@ -74,7 +51,7 @@ theorem nextDepth_ge {G : Graph} (hw : LabelsWF G) (hidden : Bool) (next d t : N
     refine ⟨?_, Nat.le_succ _⟩
     have hh : hidden = false := by cases hidden <;> simp_all
     have hs : isSameTarget G next t = true := by cases hst : isSameTarget G next t <;> simp_all
-    have := isSameTarget_sameRule hw hs
+    have := isSameTarget_sameRule hs
     rw [costS_symm]
     unfold costS
     simp [hh, this]
@@ -108,7 +85,7 @@ theorem push_inv {G : Graph} {lim : Limit} {hidden : Bool} {roots : List Nat} {s
     · exact hs.1 e he
     · subst he; exact ht
 
-theorem revStep_inv {G : Graph} (hw : LabelsWF G) {lim : Limit} {hidden : Bool} {roots : List Nat} {next d : Nat}
+theorem revStep_inv {G : Graph} {lim : Limit} {hidden : Bool} {roots : List Nat} {next d : Nat}
     (hn : DepNear G hidden roots next d) :
     ∀ (ts : List Nat) (s : RSt), (∀ t ∈ ts, Edge G t next) → RInv G lim hidden roots s →
       RInv G lim hidden roots (revStep Cfg.std G lim hidden next d ts s) := by
@@ -121,7 +98,7 @@ theorem revStep_inv {G : Graph} (hw : LabelsWF G) {lim : Limit} {hidden : Bool} 
     apply ih _ (fun t' h => hts t' (List.mem_cons_of_mem _ h))
     split
     · rename_i hwi
-      obtain ⟨hge, hle⟩ := nextDepth_ge hw hidden next d t
+      obtain ⟨hge, hle⟩ := nextDepth_ge hidden next d t
       have he : Edge G t next := hts t (List.mem_cons_self ..)
       -- the path from t to a source, of cost at most the assigned depth
       have hp : ∃ src, IsSource G hidden roots src ∧ ∃ k, k ≤ nextDepth G hidden next d t ∧
@@ -150,7 +127,7 @@ theorem revStep_inv {G : Graph} (hw : LabelsWF G) {lim : Limit} {hidden : Bool} 
       · exact Or.inr hp
     · exact hs
 
-theorem revLoop_inv {G : Graph} (hw : LabelsWF G) {lim : Limit} {hidden : Bool} {roots : List Nat} :
+theorem revLoop_inv {G : Graph} {lim : Limit} {hidden : Bool} {roots : List Nat} :
     ∀ (fuel : Nat) (s : RSt), RInv G lim hidden roots s →
       ∀ x ∈ (revLoop Cfg.std G lim hidden fuel s).ret, GoodRet G lim hidden roots x := by
   intro fuel
@@ -166,7 +143,7 @@ theorem revLoop_inv {G : Graph} (hw : LabelsWF G) {lim : Limit} {hidden : Bool} 
     · exact hs.2
     · rename_i next d q hq
       apply ih
-      apply revStep_inv hw (hs.1 (next, d) (by rw [hq]; exact List.mem_cons_self ..)) _ _
+      apply revStep_inv (hs.1 (next, d) (by rw [hq]; exact List.mem_cons_self ..)) _ _
         (fun t ht => (mem_rev ht).1)
       exact ⟨fun e he => hs.1 e (by rw [hq]; exact List.mem_cons_of_mem _ he), hs.2⟩
 
@@ -209,9 +186,9 @@ theorem revInit_inv (G : Graph) (lim : Limit) (hidden : Bool) (roots : List Nat)
     · exact h1
 
 /-- `FindRevdeps` reports only targets that stand for a target depending on a source within the limit -/
-theorem findRevdeps_sound {G : Graph} (hw : LabelsWF G) (lim : Limit) (hidden : Bool) (roots : List Nat) :
+theorem findRevdeps_sound {G : Graph} (lim : Limit) (hidden : Bool) (roots : List Nat) :
     ∀ x ∈ (findRevdeps Cfg.std G lim hidden roots).ret, GoodRet G lim hidden roots x :=
-  revLoop_inv hw _ _ (revInit_inv G lim hidden roots)
+  revLoop_inv _ _ (revInit_inv G lim hidden roots)
 
 /-! ### fuel: the loop bound `nodes.length + 1` is never reached -/
 
